@@ -10,6 +10,12 @@ CHECKS = {
  "C19": ("fixer", "exploration", "runtime monitor: reference-model oracle at the API boundary over systematic + seeded random documents, panic recovery",
          "Every call of FixEmptyResponseDescriptions on the generated and fixture documents is compared with an executable reference model on generic JSON, then repeated for idempotence; exhaustive over {described, undescribed, $ref} x {shared, default, coded} x 7 methods, sampled beyond.", "7/C19"),
 }
+CHECKS.update({
+ "C17": ("mixin", "exploration", "runtime monitor: executable reference model of the merge rules compared with every observed Mixin call; exhaustive presence matrix + systematic overlaps + seeded random sets",
+         "Each Mixin call (primary + 0..3 mixins, fresh objects) is compared with a reference model on generic JSON and the number of returned entries with the modelled collisions; exhaustive over 2^6x2^6 presence patterns, systematic over collision patterns per section, sampled beyond.", "7/C17"),
+ "C18": ("mixin", "exploration", "runtime monitor: direct predicates on the operation ids observed before/after every Mixin call (uniqueness, renamed-only-if-collided, id-less stays id-less)",
+         "Operation ids of every merged document are checked against the stated rules under the stated precondition (re-verified per case); collisions placed under each of the seven methods, primary-vs-mixin and mixin-vs-mixin, with 0..4 id-less operations, plus random sets.", "7/C18"),
+})
 PENDING = {}
 
 def main():
